@@ -14,7 +14,8 @@ literal model gets an exact characterisation and counterexample theorems.
 
 Abstractions (recorded, validated by the correspondence run):
 * the deque + `seen_edges` BFS over ordered edges `(prev_node, this_node)` is the worklist closure
-  (marks on pop instead of on push; same reachable set);
+  (marks on pop instead of on push; same reachable set – proved: `Pw/C17/Bfs.lean` writes the loop out
+  with marking on push and `C17.mem_pdsLoop` shows it returns the same set as this model);
 * `nx.has_path(adj_graph, a, b)` is reachability in the adjacency graph (closure under `nbrs`);
 * `nx.biconnected_component_edges`: the component that contains the edge x–y is modelled by its
   definition – the two endpoints plus every node that lies on a simple x…y path with at least two
